@@ -1,6 +1,7 @@
 --------------------------------- MODULE ConcV ---------------------------------
 (* Monitor for C17: events Set (a program set starts), Step (goroutine g, step i: digest d when  *)
-(* running concurrently, sd when the same program ran alone), Race (a data race report).          *)
+(* running concurrently, sd when the same program ran alone), Race (a data race report), Hang (the  *)
+(* goroutines of a set did not all finish although each program had finished when run alone).       *)
 EXTENDS Integers, Sequences, FiniteSets, TLC, Json, IOUtils
 VARIABLES l, fails, stats
 Trace == ndJsonDeserialize(IOEnv.VERIF_TRACE)
@@ -10,6 +11,7 @@ Step == /\ l <= Len(Trace)
            CASE e.ev = "Set" -> fails' = fails /\ stats' = [stats EXCEPT !.sets = @ + 1]
              [] e.ev = "Step" -> /\ fails' = fails \cup (IF e.d = e.sd /\ e.p = "ok" THEN {} ELSE {[line |-> l, pred |-> IF e.p = "ok" THEN "SeqEquiv" ELSE "Total"]})
                                  /\ stats' = [stats EXCEPT !.steps = @ + 1]
+             [] e.ev = "Hang" -> fails' = fails \cup {[line |-> l, pred |-> "Terminates"]} /\ stats' = stats
              [] OTHER -> fails' = fails \cup {[line |-> l, pred |-> "NoRace"]} /\ stats' = [stats EXCEPT !.races = @ + 1]
         /\ l' = l + 1
 Next == Step
